@@ -565,7 +565,22 @@ def rule_contnorm(ctx):
     yield ob(R, f, "beat.continuity:same-normaliser", dc is dt, "continuous and total accuracy are divided by the same count %s" % tm.show(dt, 3) if dc is dt else "continuous accuracy is divided by %s but total accuracy by %s: the ordering continuous <= total is lost when the counts differ" % (tm.show(dc, 3), tm.show(dt, 3)), node=cont[0][0].node)
     cf = count_form(dt)
     summed = tot[0][1].a[1].a[1][0]
-    yield ob(R, f, "beat.continuity:normaliser-is-length", cf is not None and cf[1] is summed, "the normaliser is the length of the very success vector that is summed", node=tot[0][0].node)
+    good_len = cf is not None and cf[1] is summed
+    if not good_len:
+        # ... or the very size the success vector was allocated with: np.zeros(N) summed, divided by N
+        o = summed
+        for _ in range(60):
+            if o.op == "upd":
+                o = o.a[0]
+            elif o.op in ("loop", "loopvar"):
+                o = o.a[2]
+            elif o.op == "ite":
+                o = o.a[1]
+            else:
+                break
+        if o.op == "call" and call_name(o) in ("np.zeros", "np.ones", "np.empty") and o.a[1] and strip_numeric(o.a[1][0]) is dt:
+            good_len = True
+    yield ob(R, f, "beat.continuity:normaliser-is-length", good_len, "the normaliser is the length of the very success vector that is summed", node=tot[0][0].node)
 
 
 def rule_nooffsetroute(ctx):
